@@ -287,6 +287,37 @@ def modules_tables() -> dict[str, list[str]]:
 	}
 
 
+def transpile_stage_tables() -> dict[str, list[str]]:
+	"""The transpile stage outside Procedure: Py2Cpp.transpile and Runner._run_impl have no except clause (anything else is a new shape
+	the model does not know), the module's `__main__` block is `try: App(...).run(...)` / `except Exception as e: print(ErrorRender(e))`."""
+	with open(os.path.join(REPO, 'rogw/tranp/implements/cpp/transpiler/py2cpp.py'), encoding='utf-8') as f:
+		tree = ast.parse(f.read())
+	fn = _find_func(tree, 'Py2Cpp', 'transpile')
+	body = [ast.unparse(x) for x in fn.body if not isinstance(x, ast.Expr) or not isinstance(x.value, ast.Constant)]
+	if body != ['self.__stack_on_depends.append([])', 'result = self.__procedure.exec(node)', 'self.__stack_on_depends.pop()', 'return result']:
+		raise TranslateError(f'Py2Cpp.transpile: unrecognised body {body}')
+	with open(os.path.join(REPO, 'rogw/tranp/bin/transpile.py'), encoding='utf-8') as f:
+		tree = ast.parse(f.read())
+	for name in ('run', '_run_impl', 'can_transpile', 'by_entrypoint'):
+		if any(isinstance(n, ast.Try) for n in ast.walk(_find_func(tree, 'Runner', name))):
+			raise TranslateError(f'Runner.{name}: unexpected try statement')
+	impl = _find_func(tree, 'Runner', '_run_impl')
+	loops = [x for x in impl.body if isinstance(x, ast.For)]
+	if len(loops) != 1 or [ast.unparse(x) for x in loops[0].body] != [
+			'content = self.transpiler.transpile(self.by_entrypoint(module_path))', 'writer = Writer(self.output_filepath(module_path))', 'writer.put(content)', 'writer.flush()']:
+		raise TranslateError('Runner._run_impl: unrecognised target loop')
+	main = [x for x in tree.body if isinstance(x, ast.If) and ast.unparse(x.test) == "__name__ == '__main__'"]
+	if len(main) != 1 or len(main[0].body) != 1 or not isinstance(main[0].body[0], ast.Try):
+		raise TranslateError('bin/transpile.py: `if __name__ == "__main__": try …` not found')
+	t = main[0].body[0]
+	if t.orelse or t.finalbody:
+		raise TranslateError('bin/transpile.py __main__: try has else/finally')
+	for h in t.handlers:
+		if not (len(h.body) == 1 and ast.unparse(h.body[0]) == f'print(ErrorRender({h.name}))'):
+			raise TranslateError('bin/transpile.py __main__: handler is not `print(ErrorRender(e))`')
+	return {'mainCatch': [_catch_atom(h.type, '__main__') for h in t.handlers]}
+
+
 def interactive_tables() -> dict[str, list[str]]:
 	path = os.path.join(REPO, 'rogw/tranp/bin/transpile.py')
 	with open(path, encoding='utf-8') as f:
@@ -436,7 +467,7 @@ def render(errs: list[tuple[str, str, bool]], bis: list[tuple[str, str | None]],
 	L.append('')
 	for name in ['emitHandlers', 'makeEventHandlers', 'execImplHandlers', 'parserDiskHandlers', 'parserMemHandlers', 'modulesLoadHandlers']:
 		L.append(f'def {name} : List Handler := [' + ', '.join(tables[name]) + ']')
-	for name in ['interactiveInnerCatch', 'interactiveOuterCatch', 'modulesLoadRollbackCatch']:
+	for name in ['interactiveInnerCatch', 'interactiveOuterCatch', 'modulesLoadRollbackCatch', 'mainCatch']:
 		L.append(f'def {name} : List Atom := [' + ', '.join(tables[name]) + ']')
 	L.append('')
 	L.append('/-- Modules.load looks the module up again after the library modules were loaded -/')
@@ -462,7 +493,7 @@ def generate() -> list[dict[str, Any]]:
 	errs = errors_hierarchy()
 	bis = builtin_hierarchy()
 	ptables, pflags = parser_tables()
-	tables = {**procedure_tables(), **ptables, **interactive_tables(), **modules_tables()}
+	tables = {**procedure_tables(), **ptables, **interactive_tables(), **modules_tables(), **transpile_stage_tables()}
 	for need in ('Exception', 'BaseException', 'TypeError', 'AssertionError', 'KeyboardInterrupt'):
 		if need not in [k for k, _ in bis]:
 			raise TranslateError(f'builtin {need} missing')
